@@ -10,6 +10,7 @@ from props.C10 import _ConstCmp
 import panics as P
 
 META = {
+    "explanation_r6": 'Also (round 6): the transaction union of handle_split_record_error runs over every version of the split result (no early exit from the loop: C05.merge.tx.all).',
     "explanation_more": "Also (round 4): every reply of a pending query is recorded under its version (C05.versions.recorded); a version reaching the quorum always concludes the query in that call (C05.acc.concludes); every version of a split result is offered to the transaction union (C05.acc.tx.*); the register handed back for a split is the fold's result on every path (C05.merge.reg.result); the command handler never answers a get-record caller itself (C05.answer.who); split scratchpads: the candidate is replaced only by a version whose counter is not lower, also when it is carried in a tuple and ranked lexicographically (first component decides).",
     "explanation": "Decides: (1) responders are counted per content hash in a HashSet<PeerId> (a peer answering twice counts once); the number "
                    "compared with the quorum is that set's len() and the map key is XorName::from_content(record.value); (2) success "
